@@ -46,14 +46,14 @@ CONSTANTS K,         \* half-width of the pixel window (>= 5 for the region fami
           Families,  \* set of family names enumerated by Init
           Emit       \* print the cases
 
-XS == INSTANCE Xsec WITH K <- K, Grid <- 4, LeafFam <- "none", GenNames <- {}, OpNames <- {},
+XS(dm) == INSTANCE Xsec WITH K <- K, Grid <- 4, LeafFam <- "none", GenNames <- {}, OpNames <- {},
                          MaxLeaf <- 0, Depth <- 0, Acts <- {}, ObsModes <- {}, Sample <- FALSE, Emit <- FALSE,
                          prog <- <<>>, den <- <<>>, lat <- <<>>, kind <- "", bucket <- 0
 
 Abs(x) == IF x < 0 THEN -x ELSE x
 Max0(x) == IF x < 0 THEN 0 ELSE x
-Pix(dummy) == XS!Pixels
-Enc(S) == XS!PixEncSet(S)
+Pix(dummy) == XS(0)!Pixels
+Enc(S) == XS(0)!PixEncSet(S)
 
 (* ======================== regions ======================================== *)
 (* rectangle <<x0,y0,x1,y1>> in lattice coordinates *)
@@ -62,7 +62,7 @@ RectPix(r) == (r[1]..(r[3]-1)) \X (r[2]..(r[4]-1))
 RectLess(a, b) == \E i \in 1..4 : a[i] < b[i] /\ \A j \in 1..(i-1) : a[j] = b[j]
 UnionPix(rs) == UNION { RectPix(rs[i]) : i \in 1..Len(rs) }
 RegionPix(g) == UnionPix(g.add) \ UnionPix(g.sub)
-RectContour(r) == XS!RectCCW(r[1], r[2], r[3], r[4])
+RectContour(r) == XS(0)!RectCCW(r[1], r[2], r[3], r[4])
 Contours(rs) == [i \in 1..Len(rs) |-> RectContour(rs[i])]
 Regions(fam) ==
   CASE fam = "r1"  -> { [add |-> <<r>>, sub |-> <<>>] : r \in RectsOn(-2, 2) }
@@ -84,13 +84,12 @@ RegionFams == {"r1", "r2", "rh", "r3", "r3all", "r2big"}
 (* ======================== distances and morphology ======================= *)
 (* 4 * squared distance from the centre of pixel p to the closed unit square s *)
 DD(p, s) == LET ax == Max0(2 * Abs(p[1] - s[1]) - 1)  ay == Max0(2 * Abs(p[2] - s[2]) - 1) IN ax * ax + ay * ay
-Far == 1000000
+Far == 100000
 MinOf(S) == IF S = {} THEN Far ELSE Min(S)
 D2(p, S) == MinOf({ DD(p, s) : s \in S })
-Cheb(S, d) == { p \in Pix(0) : \E s \in S : Abs(p[1] - s[1]) <= d /\ Abs(p[2] - s[2]) <= d }
+Cheb(S, d) == { p \in Pix(0) : \E dx \in (-d)..d, dy \in (-d)..d : << p[1] + dx, p[2] + dy >> \in S }
 (* S and the rectangles swept by the boundary edges of S along their outward normals by d *)
-EdgeDil(S, d) == { p \in Pix(0) : \E s \in S : \/ (p[1] = s[1] /\ Abs(p[2] - s[2]) <= d)
-                                                 \/ (p[2] = s[2] /\ Abs(p[1] - s[1]) <= d) }
+EdgeDil(S, d) == { p \in Pix(0) : \E t \in (-d)..d : << p[1] + t, p[2] >> \in S \/ << p[1], p[2] + t >> \in S }
 ErodeCheb(S, e) == { p \in S : \A dx \in (-e)..e, dy \in (-e)..e : << p[1] + dx, p[2] + dy >> \in S }
 
 (* lower bounds of 100*cos(pi/n) *)
@@ -99,20 +98,20 @@ CosLB(n) == CASE n = 3 -> 50 [] n = 4 -> 70 [] n = 5 -> 80 [] n = 6 -> 86 [] n =
 Joins == {"Miter", "Round", "Square", "Bevel"}
 
 (* the demand for "grow S by e > 0" inside the universe of pixels: <<in, out>>.              *)
-(* dist is the function p |-> D2(p, S) for p outside S.                                      *)
-GrowDemand(S, dist, e, jt, ml10, seg) ==
+(* dist is the function p |-> D2(p, S) for p outside S; ch = Cheb(S, e), ed = EdgeDil(S, e). *)
+GrowDemand(S, dist, ch, ed, e, jt, ml10, seg) ==
   LET notS == Pix(0) \ S
       near(th) == { p \in notS : dist[p] * 10000 < th }         \* th = 10000 * 4 * radius^2
       far(th)  == { p \in notS : dist[p] * 100 > th }           \* th = 100 * 4 * radius^2
-  IN CASE jt = "Miter" -> << Cheb(S, e), Pix(0) \ Cheb(S, e) >>
-       [] jt = "Round" -> << EdgeDil(S, e) \cup near(4 * e * e * CosLB(seg) * CosLB(seg)), far(400 * e * e) >>
-       [] OTHER        -> << EdgeDil(S, e), far(4 * e * e * ml10 * ml10) >>
+  IN CASE jt = "Miter" -> << ch, Pix(0) \ ch >>
+       [] jt = "Round" -> << ed \cup near(4 * e * e * CosLB(seg) * CosLB(seg)), far(400 * e * e) >>
+       [] OTHER        -> << ed, far(4 * e * e * ml10 * ml10) >>
 
-(* Offset(delta) of the region with pixel set A: [d, in, maybe] *)
-OffDemand(A, dA, dC, d, jt, ml10, seg) ==
+(* Offset(delta) of the region with pixel set A: [d, in, out]; T = the morphology tables *)
+OffDemand(A, T, d, jt, ml10, seg) ==
   IF d = 0 THEN [d |-> 0, in |-> A, out |-> Pix(0) \ A]
-  ELSE IF d > 0 THEN LET g == GrowDemand(A, dA, d, jt, ml10, seg) IN [d |-> d, in |-> g[1], out |-> g[2]]
-  ELSE LET g == GrowDemand(Pix(0) \ A, dC, -d, jt, ml10, seg) IN [d |-> d, in |-> g[2], out |-> g[1]]
+  ELSE IF d > 0 THEN LET g == GrowDemand(A, T.dA, T.chA[d], T.edA[d], d, jt, ml10, seg) IN [d |-> d, in |-> g[1], out |-> g[2]]
+  ELSE LET g == GrowDemand(Pix(0) \ A, T.dC, T.chC[-d], T.edC[-d], -d, jt, ml10, seg) IN [d |-> d, in |-> g[2], out |-> g[1]]
 
 Deltas == << -2, -1, 0, 1, 2 >>
 Variants(quick) ==
@@ -121,64 +120,69 @@ Variants(quick) ==
      [jt |-> "Round", ml10 |-> 20, seg |-> 16], [jt |-> "Round", ml10 |-> 20, seg |-> 3],
      [jt |-> "Square", ml10 |-> 20, seg |-> 0], [jt |-> "Bevel", ml10 |-> 20, seg |-> 0] >>
 
-OffFacts(g) ==
+(* the tables are computed by a step of their own (OffTables) so that TLC holds them as values *)
+OffTables(g) ==
   LET A == RegionPix(g)
       C == Pix(0) \ A
-      dA == [p \in C |-> D2(p, A)]
-      dC == [p \in A |-> D2(p, C)]
-      vs == Variants(TRUE)
-  IN [kind |-> "off", g |-> g, A |-> A,
+  IN [A |-> A, dA |-> [p \in C |-> D2(p, A)], dC |-> [p \in A |-> D2(p, C)],
+      chA |-> << Cheb(A, 1), Cheb(A, 2) >>, edA |-> << EdgeDil(A, 1), EdgeDil(A, 2) >>,
+      chC |-> << Cheb(C, 1), Cheb(C, 2) >>, edC |-> << EdgeDil(C, 1), EdgeDil(C, 2) >>]
+OffFacts(g, T) ==
+  LET vs == Variants(TRUE)
+  IN [kind |-> "off", g |-> g, A |-> T.A,
       vars |-> [i \in 1..Len(vs) |->
                  [jt |-> vs[i].jt, ml10 |-> vs[i].ml10, seg |-> vs[i].seg,
-                  ds |-> [k \in 1..Len(Deltas) |-> OffDemand(A, dA, dC, Deltas[k], vs[i].jt, vs[i].ml10, vs[i].seg)]]]]
+                  ds |-> [k \in 1..Len(Deltas) |-> OffDemand(T.A, T, Deltas[k], vs[i].jt, vs[i].ml10, vs[i].seg)]]]]
 
 (* ======================== sharp convex polygons ========================== *)
 (* contours in DOUBLED coordinates, counter-clockwise, convex, with acute corners *)
 SharpSet ==
-  { XS!Tri,                                              \* 45-45-90
-    XS!TriA,                                             \* 26.6 degrees
-    XS!Lat(<< <<-2,0>>, <<2,0>>, <<2,1>> >>),            \* 14 degrees
-    XS!Lat(<< <<-2,-1>>, <<2,0>>, <<-2,1>> >>),          \* isosceles spike 28 degrees
-    XS!Lat(<< <<0,-2>>, <<1,0>>, <<0,2>>, <<-1,0>> >>),  \* rhombus 53 / 127 degrees
-    XS!Diam }                                            \* 90-degree diamond (45-degree edges)
+  { XS(0)!Tri,                                              \* 45-45-90
+    XS(0)!TriA,                                             \* 26.6 degrees
+    XS(0)!Lat(<< <<-2,0>>, <<2,0>>, <<2,1>> >>),            \* 14 degrees
+    XS(0)!Lat(<< <<-2,-1>>, <<2,0>>, <<-2,1>> >>),          \* isosceles spike 28 degrees
+    XS(0)!Lat(<< <<0,-2>>, <<1,0>>, <<0,2>>, <<-1,0>> >>),  \* rhombus 53 / 127 degrees
+    XS(0)!Diam }                                            \* 90-degree diamond (45-degree edges)
 Sub2(a, b) == << a[1] - b[1], a[2] - b[2] >>
 Dot2(a, b) == a[1] * b[1] + a[2] * b[2]
 (* squared distance of q to the closed segment a-b as a fraction <<num, den>> (doubled coordinates) *)
 SegD2(q, a, b) ==
-  LET d == Sub2(b, a)  t == Dot2(Sub2(q, a), d)  L == Dot2(d, d)  c == XS!Cross2(a, b, q) IN
+  LET d == Sub2(b, a)  t == Dot2(Sub2(q, a), d)  L == Dot2(d, d)  c == XS(0)!Cross2(a, b, q) IN
   IF t <= 0 THEN << Dot2(Sub2(q, a), Sub2(q, a)), 1 >>
   ELSE IF t >= L THEN << Dot2(Sub2(q, b), Sub2(q, b)), 1 >>
   ELSE << c * c, L >>
-(* centre of p farther from every edge of contour c than sqrt(rn/100)/2 *)
-BoundaryFarther(c, p, rn) ==
-  \A i \in 1..Len(c) : LET f == SegD2(XS!Centre2(p), c[i], XS!NextV(c, i)) IN f[1] * 100 > rn * f[2]
+FracLt(f, g) == f[1] * g[2] < g[1] * f[2]
+(* squared distance of the centre of p to the boundary of contour c (the smallest fraction) *)
+BoundaryD2(c, p) == LET F == { SegD2(XS(0)!Centre2(p), c[i], XS(0)!NextV(c, i)) : i \in 1..Len(c) } IN
+                    CHOOSE f \in F : \A g \in F : ~FracLt(g, f)
 SharpVariants ==
   << [jt |-> "Miter", ml10 |-> 20, seg |-> 0], [jt |-> "Miter", ml10 |-> 30, seg |-> 0],
      [jt |-> "Miter", ml10 |-> 50, seg |-> 0], [jt |-> "Miter", ml10 |-> 100, seg |-> 0],
      [jt |-> "Round", ml10 |-> 20, seg |-> 8], [jt |-> "Square", ml10 |-> 20, seg |-> 0],
      [jt |-> "Bevel", ml10 |-> 20, seg |-> 0] >>
-SharpDemand(c, A, d, v) ==
+(* bd = [p |-> BoundaryD2(c, p)]; farther than bound/10 * |d| : f[1]/f[2] > 4 d^2 bound^2 / 100 *)
+SharpDemand(bd, A, d, v) ==
   LET bound == IF v.jt = "Round" THEN 10 ELSE v.ml10       \* in tenths of |delta|
-      rn == 4 * d * d * bound * bound                       \* 100 * 4 * (bound/10 * d)^2
-      farOut == { p \in Pix(0) \ A : BoundaryFarther(c, p, rn) }
-      farIn  == { p \in A : BoundaryFarther(c, p, rn) }
+      rn == 4 * d * d * bound * bound
+      farOut == { p \in Pix(0) \ A : bd[p][1] * 100 > rn * bd[p][2] }
+      farIn  == { p \in A : bd[p][1] * 100 > rn * bd[p][2] }
   IN IF d = 0 THEN [d |-> 0, in |-> A, out |-> Pix(0) \ A]
      ELSE IF d > 0 THEN [d |-> d, in |-> A, out |-> farOut]
      ELSE [d |-> d, in |-> farIn, out |-> Pix(0) \ A]
-SharpFacts(c) ==
-  LET A == XS!Fill("Positive", <<c>>) IN
-  [kind |-> "sharp", c |-> c, A |-> A,
+SharpTables(c) == [A |-> XS(0)!Fill("Positive", <<c>>), bd |-> [p \in Pix(0) |-> BoundaryD2(c, p)]]
+SharpFacts(c, T) ==
+  [kind |-> "sharp", c |-> c, A |-> T.A,
    vars |-> [i \in 1..Len(SharpVariants) |->
               [jt |-> SharpVariants[i].jt, ml10 |-> SharpVariants[i].ml10, seg |-> SharpVariants[i].seg,
-               ds |-> [k \in 1..Len(Deltas) |-> SharpDemand(c, A, Deltas[k], SharpVariants[i])]]]]
+               ds |-> [k \in 1..Len(Deltas) |-> SharpDemand(T.bd, T.A, Deltas[k], SharpVariants[i])]]]]
 
 (* ======================== Hull =========================================== *)
-Cr(a, b, c) == XS!Cross2(a, b, c)
+Cr(a, b, c) == XS(0)!Cross2(a, b, c)
 Dim2(P) == \E a \in P, b \in P, c \in P : Cr(a, b, c) # 0
 (* a -> b is a directed edge of the hull: everything left of or on it, a and b the extremes on its line *)
 HullEdges(P) == { e \in P \X P : /\ e[1] # e[2]
                                   /\ \A p \in P : /\ Cr(e[1], e[2], p) >= 0
-                                                  /\ (Cr(e[1], e[2], p) = 0 => XS!OnSeg(e[1], e[2], p)) }
+                                                  /\ (Cr(e[1], e[2], p) = 0 => XS(0)!OnSeg(e[1], e[2], p)) }
 HullVerts(P) == IF Dim2(P) THEN { e[1] : e \in HullEdges(P) } ELSE {}
 LexLess(a, b) == a[1] < b[1] \/ (a[1] = b[1] /\ a[2] < b[2])
 LexMin(S) == CHOOSE a \in S : \A b \in S : a = b \/ LexLess(a, b)
@@ -187,12 +191,12 @@ Walk(E, start, acc) ==
   LET nxt == (CHOOSE e \in E : e[1] = acc[Len(acc)])[2] IN
   IF nxt = start \/ Len(acc) > Cardinality(E) THEN acc ELSE Walk(E, start, Append(acc, nxt))
 HullCycle(P) == IF ~Dim2(P) THEN <<>> ELSE LET s == LexMin(HullVerts(P)) IN Walk(HullEdges(P), s, <<s>>)
-Area2(c) == XS!SumSeq([i \in 1..Len(c) |-> c[i][1] * XS!NextV(c, i)[2] - XS!NextV(c, i)[1] * c[i][2]])
+Area2(c) == XS(0)!SumSeq([i \in 1..Len(c) |-> c[i][1] * XS(0)!NextV(c, i)[2] - XS(0)!NextV(c, i)[1] * c[i][2]])
 (* independent (Caratheodory): p is extreme iff it is in no segment / triangle of OTHER points *)
 InTri(a, b, c, p) == LET s1 == Cr(a, b, p)  s2 == Cr(b, c, p)  s3 == Cr(c, a, p) IN
                      (s1 >= 0 /\ s2 >= 0 /\ s3 >= 0) \/ (s1 <= 0 /\ s2 <= 0 /\ s3 <= 0)
 Extreme(p, P) == LET Q == P \ {p} IN
-  /\ ~\E a \in Q, b \in Q : a # b /\ XS!OnSeg(a, b, p)
+  /\ ~\E a \in Q, b \in Q : a # b /\ XS(0)!OnSeg(a, b, p)
   /\ ~\E a \in Q, b \in Q, c \in Q : Cr(a, b, c) # 0 /\ InTri(a, b, c, p)
 HGrid == 0..3
 HPoints == HGrid \X HGrid
@@ -226,7 +230,7 @@ DecFacts(g) == LET A == RegionPix(g) IN
 CPrev(c, i) == c[IF i = 1 THEN Len(c) ELSE i - 1]
 (* squared deviation of vertex i from the line through its neighbours, as a fraction; a      *)
 (* vertex whose neighbours coincide has deviation 0 (as the code defines it)                 *)
-Dev(c, i) == LET P == CPrev(c, i)  N == XS!NextV(c, i)  pn == Sub2(N, P)  L == Dot2(pn, pn)
+Dev(c, i) == LET P == CPrev(c, i)  N == XS(0)!NextV(c, i)  pn == Sub2(N, P)  L == Dot2(pn, pn)
                  cr == Cr(P, N, c[i]) IN IF L = 0 THEN << 0, 1 >> ELSE << cr * cr, L >>
 FracLess(f, g) == f[1] * g[2] < g[1] * f[2]
 Closer(c, i, tn, td) == FracLess(Dev(c, i), << tn * tn, td * td >>)
@@ -278,21 +282,22 @@ SimpFacts(x) == LET ref == RefSimplify(x[1], x[2][1], x[2][2]) IN
   [kind |-> "simp", ring |-> x[1], tn |-> x[2][1], td |-> x[2][2], ref |-> ref, nrem |-> Len(x[1]) - Len(ref)]
 
 (* ======================== cases ========================================== *)
-VARIABLES cs, done
+VARIABLES cs, done      \* done: 0 = raw case, 1 = tables computed, 2 = facts computed and printed
 vars == << cs, done >>
 Init ==
-  /\ done = FALSE
+  /\ done = 0
   /\ \E fam \in Families :
        \/ /\ fam \in RegionFams
           /\ \E g \in Regions(fam), k \in {"off", "dec", "hullx"} : cs = [kind |-> k, in |-> g]
        \/ /\ fam = "sharp" /\ \E c \in SharpSet : cs = [kind |-> "sharp", in |-> c]
        \/ /\ fam \in HullFams /\ \E P \in HullCases(fam) : cs = [kind |-> "hull", in |-> P]
        \/ /\ fam \in SimpFams /\ \E x \in SimpCases(fam) : cs = [kind |-> "simp", in |-> x]
+Tables == CASE cs.kind = "off" -> OffTables(cs.in) [] cs.kind = "sharp" -> SharpTables(cs.in) [] OTHER -> << >>
 Computed ==
-  CASE cs.kind = "off"   -> OffFacts(cs.in)
+  CASE cs.kind = "off"   -> OffFacts(cs.in, cs.T)
     [] cs.kind = "dec"   -> DecFacts(cs.in)
     [] cs.kind = "hullx" -> HullRectFacts(cs.in)
-    [] cs.kind = "sharp" -> SharpFacts(cs.in)
+    [] cs.kind = "sharp" -> SharpFacts(cs.in, cs.T)
     [] cs.kind = "hull"  -> HullFacts(cs.in)
     [] cs.kind = "simp"  -> SimpFacts(cs.in)
 (* what is printed: `maybe` instead of `out` (it is small) *)
@@ -307,15 +312,17 @@ Emitted(x) ==
     [] x.kind = "hull"  -> [kind |-> "hull", pts |-> x.pts, hull |-> x.hull, area2 |-> x.area2]
     [] x.kind = "hullx" -> [kind |-> "hullx", rects |-> x.rects, pts |-> x.pts, hull |-> x.hull, area2 |-> x.area2]
     [] x.kind = "simp"  -> [kind |-> "simp", ring |-> x.ring, tn |-> x.tn, td |-> x.td, ref |-> x.ref, nrem |-> x.nrem]
-Next == /\ ~done /\ done' = TRUE /\ cs' = Computed
-        /\ (Emit => PrintT(<<"BEH", ToJson(Emitted(cs'))>>))
+Step1 == done = 0 /\ done' = 1 /\ cs' = [kind |-> cs.kind, in |-> cs.in, T |-> Tables]
+Step2 == /\ done = 1 /\ done' = 2 /\ cs' = Computed
+         /\ (Emit => PrintT(<<"BEH", ToJson(Emitted(cs'))>>))
+Next == Step1 \/ Step2
 
 (* ======================== what TLC checks ================================ *)
-IsK(k) == done /\ cs.kind = k
-RegionCase == done /\ cs.kind \in {"off", "dec"}
+IsK(k) == done = 2 /\ cs.kind = k
+RegionCase == done = 2 /\ cs.kind \in {"off", "dec"}
 (* the pixel set of a region is what Xsec.tla's winding oracle says about its rectangles *)
 RegionIsFill == RegionCase =>
-  /\ cs.A = XS!Fill("Positive", Contours(cs.g.add)) \ XS!Fill("Positive", Contours(cs.g.sub))
+  /\ cs.A = XS(0)!Fill("Positive", Contours(cs.g.add)) \ XS(0)!Fill("Positive", Contours(cs.g.sub))
   /\ \A s \in cs.A : << s[1] - 3, s[2] - 3 >> \in Pix(0) /\ << s[1] + 3, s[2] + 3 >> \in Pix(0)  \* room for every offset
 (* no pixel is demanded both inside and outside; demands are monotone in delta *)
 DemandsConsistent == (IsK("off") \/ IsK("sharp")) =>
@@ -347,19 +354,19 @@ MorphologyLaws == IsK("off") =>
   /\ \A p \in Pix(0) \ cs.A : (D2(p, cs.A) <= 4 => p \in Cheb(cs.A, 1)) /\ (p \in EdgeDil(cs.A, 1) => D2(p, cs.A) <= 1)
 (* sharp polygons: no pixel centre on an edge; convex and counter-clockwise *)
 SharpSound == IsK("sharp") =>
-  /\ \A p \in Pix(0) : XS!CentreOffContour(cs.c, p)
-  /\ \A i \in 1..Len(cs.c) : Cr(cs.c[i], XS!NextV(cs.c, i), XS!NextV(cs.c, i + 1)) > 0
+  /\ \A p \in Pix(0) : XS(0)!CentreOffContour(cs.c, p)
+  /\ \A i \in 1..Len(cs.c) : Cr(cs.c[i], XS(0)!NextV(cs.c, i), XS(0)!NextV(cs.c, i + 1)) > 0
   /\ cs.A # {}
 (* Hull: the cycle is the vertex set, strictly convex, counter-clockwise, contains every point, and *)
 (* agrees with the independent definition of extreme points                                         *)
-HullCase == done /\ cs.kind \in {"hull", "hullx"}
+HullCase == done = 2 /\ cs.kind \in {"hull", "hullx"}
 HullSound == HullCase =>
   LET h == cs.hull  P == cs.P IN
   IF ~Dim2(P) THEN h = <<>> /\ cs.area2 = 0
   ELSE /\ ToSet(h) = HullVerts(P) /\ Len(h) = Cardinality(HullVerts(P)) /\ Len(h) >= 3
        /\ ToSet(h) \subseteq P
-       /\ \A i \in 1..Len(h) : /\ Cr(h[i], XS!NextV(h, i), XS!NextV(h, i + 1)) > 0
-                               /\ \A p \in P : Cr(h[i], XS!NextV(h, i), p) >= 0
+       /\ \A i \in 1..Len(h) : /\ Cr(h[i], XS(0)!NextV(h, i), XS(0)!NextV(h, i + 1)) > 0
+                               /\ \A p \in P : Cr(h[i], XS(0)!NextV(h, i), p) >= 0
        /\ cs.area2 > 0
 ExtremeAgree == HullCase => (Dim2(cs.P) => HullVerts(cs.P) = { p \in cs.P : Extreme(p, cs.P) })
 (* Decompose: the components partition the region, are edge-connected and maximal *)
